@@ -152,10 +152,12 @@ var Hung bool
 func Reset(p map[int]int, budget int) {
 	PlanMode, plan, Calls, Log, Fired, Budget = true, p, 0, nil, nil, budget
 	Hung = false
+	Rule = nil
+	FiredKinds = map[int]int{}
 }
 
 // Off leaves plan mode.
-func Off() { PlanMode, plan = false, nil }
+func Off() { PlanMode, plan, Rule = false, nil, nil }
 
 // Point is one fault point in plan mode: it returns the planned kind.
 func Point(op, path string) int {
@@ -166,11 +168,23 @@ func Point(op, path string) int {
 		panic(HangError{Calls})
 	}
 	k := plan[i]
+	if k == KOk && Rule != nil {
+		k = Rule(op, path)
+	}
 	if k != KOk {
 		Fired = append(Fired, i)
+		FiredKinds[i] = k
 	}
 	return k
 }
+
+// Rule, when non-nil in plan mode, is a persistent fault: it is asked for
+// every call the plan leaves alone (a read-only directory, a name that cannot
+// be removed: the same call fails however often it is repeated).  FiredKinds
+// records index -> kind of every fault that fired, which is the equivalent
+// index plan of the run.
+var Rule func(op, path string) int
+var FiredKinds = map[int]int{}
 
 func errOf(kind int, op, path string) error {
 	var e error
